@@ -1579,3 +1579,31 @@ V("C03", "benign_changed_predicate_named_values", "benign", None, (Z, "        r
 V("C09", "where_y_branch_checks_identity_with_false", "fire", "R09.j", (R, """                if not self.value:
                     trigger.param.trigger('value')""", """                if self.value is False:
                     trigger.param.trigger('value')"""))
+
+# context-manager model
+V("C05", "benign_discard_events_restores_in_place", "benign", None, (Z, """        parameterized.param._state_watchers = watchers
+        parameterized.param._events = events
+""", """        parameterized.param._state_watchers[:] = watchers
+        parameterized.param._events[:] = events
+"""))
+V("C05", "discard_events_restores_flag_only", "fire", "R05.x", (Z, """        parameterized.param._BATCH_WATCH = batch_watch
+        parameterized.param._state_watchers = watchers
+        parameterized.param._events = events
+""", """        parameterized.param._BATCH_WATCH = batch_watch
+"""))
+V("C14", "edit_constant_relocks_by_name_only", "fire", "R14.x", (Z, """            pobj.constant = True
+            # Some operations trigger a parameter instantiation (copy),""", """            # Some operations trigger a parameter instantiation (copy),"""))
+V("C04", "batch_cm_flushes_even_when_nested", "fire", "R04.x", (Z, """        parameterized.param._BATCH_WATCH = BATCH_WATCH
+        if run and not BATCH_WATCH:
+            parameterized.param._batch_call_watchers()""", """        parameterized.param._BATCH_WATCH = BATCH_WATCH
+        if run:
+            parameterized.param._batch_call_watchers()"""))
+V("C08", "syncing_restores_to_empty_set", "fire", "R08.x", (Z, """    finally:
+        parameterized._param__private.syncing = old
+""", """    finally:
+        parameterized._param__private.syncing = set()
+"""))
+V("C05", "benign_discard_events_tuple_restore", "benign", None, (Z, """        parameterized.param._state_watchers = watchers
+        parameterized.param._events = events
+""", """        parameterized.param._state_watchers, parameterized.param._events = watchers, events
+"""))
